@@ -206,6 +206,25 @@ class SimFS:
             f.mtime = self.clock
             self.mutated(path)
 
+    def sys_write_at(self, path: str, offset: int, data: bytes) -> None:
+        """pwrite-style write of a descriptor opened without O_APPEND: lands at `offset`; a gap
+        beyond EOF reads back as NUL bytes. Chunked like appends."""
+        p = self.proc()
+        k = self.write_ordinal.get(p, 0)
+        self.write_ordinal[p] = k + 1
+        cuts = sorted(c for c in self.split_plan.get(p, {}).get(k, []) if 0 < c < len(data))
+        bounds = [0] + cuts + [len(data)]
+        for a, b in zip(bounds, bounds[1:]):
+            self._sys("write", path, data[a:b], offset + a, mutating=True)
+            f = self.files.get(path)
+            if f is None:
+                return
+            if offset + a > len(f.data):
+                f.data += b"\0" * (offset + a - len(f.data))
+            f.data[offset + a:offset + b] = data[a:b]
+            f.mtime = self.clock
+            self.mutated(path)
+
     def sys_read(self, path: str, offset: int, n: int) -> bytes:
         self._sys("read", path, offset, n)
         f = self.files.get(path)
@@ -323,7 +342,9 @@ class FakeFile:
             if self.append:
                 self.fs.sys_write_append(self.path, data)
             else:
-                raise InternalError("SimFS: non-append write is not modelled")
+                self.fs.sys_write_at(self.path, self.pos, data)
+                self.pos += len(data)
+                self.rbuf = b""
 
     def truncate(self, size: int | None = None) -> int:
         self.flush()
